@@ -14,6 +14,8 @@ statement is what `add_include`/`include_library` look at:
 A library is a directory (the table of written paths that exist below it, with their canonical
 targets) or a single `.circom` file (canonical target and the file name it was given on the command line).
 -/
+import Circomspect.Model.CfgReach
+
 namespace Circomspect.Includes
 
 abbrev File := Nat
@@ -112,13 +114,29 @@ def init (inputs : List File) : St :=
 
 def parseFiles (fs : Fs) (inputs : List File) : St := run fs (fs.n + 1) (init inputs)
 
-/-- the include statements that refer to a file which was read (or should have been) but cannot be used — it cannot be opened
-    or does not parse — and is not itself named on the command line: `parse_files` reports each of them, after all files have been
-    read, at the include statement (repairs fbd2e79, c7e33f0, a095136) -/
+/-- the files which were read (or should have been) but cannot be used — they cannot be opened or do not parse — and are not
+    themselves named on the command line -/
+def badFiles (fs : Fs) (inputs reads : List File) : List File :=
+  (reads.flatMap (fun f => (fs.incs f).filterMap (fun i =>
+    match resolve fs.libs i with
+    | some t => if !((fs.files[t]?.map (·.ok)).getD false) && !inputs.contains t then some t else none
+    | none => none))).eraseDups
+
+/-- from an included file to the files that include it; a file named on the command line is not climbed from -/
+def upEdges (fs : Fs) (inputs reads : List File) : List (File × File) :=
+  reads.flatMap (fun f => (fs.incs f).filterMap (fun i =>
+    match resolve fs.libs i with
+    | some v => if inputs.contains v then none else some (v, f)
+    | none => none))
+
+/-- the include statements through which a file that cannot be used is reached: `parse_files` reports each of them, after all
+    files have been read (repairs fbd2e79, c7e33f0, a095136; since b4f5d8c not only the statements that refer to the file but also
+    those that refer to the files they occur in, and so on up to the named files — `FileStack::included_from`) -/
 def badSites (fs : Fs) (inputs reads : List File) : List (File × Nat) :=
+  let hit := (badFiles fs inputs reads).flatMap (fun t => CfgReach.closure (upEdges fs inputs reads) [t])
   reads.flatMap (fun f => (fs.incs f).zipIdx.filterMap (fun ii =>
     match resolve fs.libs ii.1 with
-    | some t => if !((fs.files[t]?.map (·.ok)).getD false) && !inputs.contains t then some (f, ii.2) else none
+    | some v => if !inputs.contains v && hit.contains v then some (f, ii.2) else none
     | none => none))
 
 /-- `is_user_input` -/
